@@ -36,6 +36,9 @@ theorem gen_reporter : Gen.C19.reporterClassAttrs = [] ∧
     Gen.C19.reportBody = ["self.error_reported = True", "self._errors.append(e)"] ∧
     Gen.C19.reporterIsErr = ["return self.error_reported"] ∧ Gen.C19.reporterErrors = ["return self._errors"] := by decide
 theorem gen_process_args : Gen.C19.procArgs = ["args = [scf]", "if args_dict:\n    args += args_dict[uri]", "return args"] := by decide
+/-- _process_args_dict changes in place only lists it created itself - never the caller's dictionary or its lists -/
+theorem gen_process_args_no_alias : Gen.C19.procMutatedCaller = [] ∧
+    Gen.C19.procMutated.all (fun x => Gen.C19.procFresh.contains x) = true := by decide
 theorem gen_sequential : Gen.C19.seqIter = "self._cfs.items()" ∧ Gen.C19.seqTarget = "(uri, cf)" ∧
     Gen.C19.seqBody = ["args = self._process_args_dict(cf, uri, args_dict)", "func(*args)"] := by decide
 theorem gen_parallel : Gen.C19.parTry = ["self.parallel_safe(func, args_dict)"] ∧ Gen.C19.parHandlerType = "Exception" ∧
@@ -463,6 +466,52 @@ theorem history_state (cfs : List (Uri × Member)) :
         simp only [List.map_cons, specFlag]
         rw [← hflag1]; exact hflag2
 
+/-! ### One argument dictionary re-used for several actions -/
+
+/-- **The caller's dictionary is left as it was** by a swarm-wide action. -/
+theorem args_dict_unchanged (d : ArgsDict) : dictAfterCall d = some d := by
+  simp [dictAfterCall, gen_process_args_no_alias.1]
+
+/-- the calls of a history were each executed with dictionary `d` (from some swarm state) and produced these outputs -/
+inductive RanWith (cfs : List (Uri × Member)) (d : ArgsDict) :
+    List (ActKind × (Uri → List Arg → Option Err) × List Nat) → List (List Ev × Option Exc) → Prop
+  | nil : RanWith cfs d [] []
+  | cons (k f sch st st' tr r rest outs) : runOp cfs st (actOp d f k) sch = some (st', tr, r) → RanWith cfs d rest outs →
+      RanWith cfs d ((k, f, sch) :: rest) ((tr, r) :: outs)
+
+/-- **Any history of actions re-using one dictionary object** (any mix of sequential / parallel / parallel_safe, any
+failing subsets, any schedules): the dictionary is unchanged at the end, and EVERY call - not only the first - was
+executed with the original dictionary `d`, so `each_once_with_own_args` / `sequential_in_order` /
+`raises_iff_some_failed` apply to each of them with `d`'s own entries. -/
+theorem shared_dict_history (cfs : List (Uri × Member)) (d : ArgsDict) :
+    ∀ (calls : List (ActKind × (Uri → List Arg → Option Err) × List Nat)) (st : SwarmState) (dd : ArgsDict)
+      (outs : List (List Ev × Option Exc)), runActs cfs st d calls = some (dd, outs) → dd = d ∧ RanWith cfs d calls outs := by
+  intro calls
+  induction calls with
+  | nil =>
+    intro st dd outs h
+    simp only [runActs, Option.some.injEq, Prod.mk.injEq] at h
+    obtain ⟨h1, h2⟩ := h
+    subst h1; subst h2
+    exact ⟨rfl, .nil⟩
+  | cons hd rest ih =>
+    intro st dd outs h
+    obtain ⟨k, f, sch⟩ := hd
+    simp only [runActs, args_dict_unchanged] at h
+    split at h
+    · next st' tr r _ hop hd' =>
+      simp only [Option.some.injEq] at hd'
+      subst hd'
+      split at h
+      · next dd' outs' hrest =>
+        simp only [Option.some.injEq, Prod.mk.injEq] at h
+        obtain ⟨h1, h2⟩ := h
+        subst h1; subst h2
+        obtain ⟨hdd, hran⟩ := ih st' dd' outs' hrest
+        exact ⟨hdd, .cons k f sch st st' tr r rest outs' hop hran⟩
+      · cases h
+    · cases h
+
 /-- **The join and the error collection are race-free: no interleaving deadlocks** - as long as the call has not
 finished some thread can step ... -/
 theorem no_deadlock (p : Params) (st : SwarmState) (sch : List Nat) (c : Cfg) (h : exec p st sch = some c)
@@ -519,6 +568,11 @@ example : (runHist (mkSwarm [5]) fresh
     (fun r => (r.1.isOpen, r.1.mem 0, r.2)) =
     some (true, true, [none, some .alreadyOpened, some .alreadyOpened, none, some (.chained (.connFailed 5)), none, some .alreadyOpened]) := by
   decide
+/-- one dictionary for a sequential call, a failing parallel_safe call and a sequential retry: unchanged, same arguments each time -/
+example : (runActs (mkSwarm [5]) fresh exD
+    [(.sequential, fun _ _ => none, []), (.parallelSafe, fun _ _ => some (.user 9), [0, 0, 1, 1, 1, 1, 0, 0, 0, 0]),
+     (.sequential, fun _ _ => none, [])]).map (fun r => (r.1 == exD, r.2.map (·.1))) =
+    some (true, [[.call 5 0 [1, 2], .ret 5], [.call 5 0 [1, 2], .raised 5 (.user 9)], [.call 5 0 [1, 2], .ret 5]]) := by decide
 example : openFails exSt (fun u => u != 7) 1 7 := .inr (by decide)
 /-- outside the property (malformed dictionary): with a missing entry parallel_safe raises KeyError while the thread it
 already started is still running - `ArgsOk` is a real hypothesis of `parallel_safe_returns_after_all` -/
